@@ -162,6 +162,8 @@ class Worker:
         rec = self.rec
         op = job["op"]
         data = self.materialise(job)
+        if op == "clisub":
+            return self.run_clisub(job, data)
         inject = None
         if op == "inject":
             tg = job["target"]
@@ -223,6 +225,46 @@ class Worker:
             out["injected"] = rec.injected
         if op == "dry":
             out["targets"] = self.targets(rec.line_log)
+        return out
+
+    def run_clisub(self, job, data):
+        """cli.main in a fresh interpreter: real stdout / stderr / exit status; events through a side file."""
+        from . import c01_mutators as M
+        ext = job.get("ext") or M.EXT[job["kind"]]
+        path = self._file(f"in.{ext}", data)
+        mode = job.get("cli_mode", "text")
+        argv = [path] + {"text": [], "json": ["--json"], "unit": ["--json-unit"], "jsonbin": ["--json", "--binary"]}[mode]
+        evf = self.wdir / "clisub-events.json"
+        evf.unlink(missing_ok=True)
+        budget = 20.0 + 2.0 * len(data) / 1e6
+        out = {"id": job.get("id"), "sha": __import__("hashlib").sha256(data).hexdigest()[:16], "size": len(data),
+               "detail": []}
+
+        def limits():
+            import resource
+            resource.setrlimit(resource.RLIMIT_CPU, (int(budget) + 5, int(budget) + 10))
+        try:
+            p = subprocess.run([PY, "-m", "mbv.c01_worker", "clisub", json.dumps(argv), str(evf)], cwd=str(VERIF),
+                               capture_output=True, timeout=max(300.0, budget * 15), preexec_fn=limits)
+        except subprocess.TimeoutExpired:
+            out["ev"] = [{"a": "Timeout"}]
+            out["killed"] = "Timeout"
+            return out
+        if p.returncode < 0:
+            out["ev"] = [{"a": "Timeout" if p.returncode == -signal.SIGXCPU else "WorkerDied"}]
+            out["killed"] = out["ev"][0]["a"]
+            out["rc"] = p.returncode
+            return out
+        try:
+            ev = json.loads(evf.read_text())
+        except Exception:
+            ev = None
+        so, se = p.stdout.decode("utf-8", "replace"), p.stderr.decode("utf-8", "replace")
+        if ev is None:
+            out["machinery"] = f"cli launcher produced no events (rc={p.returncode}): {se[-300:]}"
+            return out
+        ev.append(cli_out_event(so, se, p.returncode))
+        out.update(ev=ev, stdout_len=len(so), stderr=se[-400:], rc=p.returncode)
         return out
 
     def targets(self, log):
